@@ -3,7 +3,7 @@
    and the parsed text of lib/apk/db/installed. [check_case] compares with the
    model (mismatch:...) and runs the validators of Spec/InstallSpec.v on the
    observation (viol:...). *)
-From Apko Require Export Base.Prelude Model.Install Spec.InstallSpec.
+From Apko Require Export Base.Prelude Model.Install Model.InstallDb Spec.InstallSpec.
 Open Scope string_scope. Open Scope list_scope.
 
 Record case := {
@@ -138,6 +138,12 @@ Definition aliased (c : case) (p : path) : bool :=
 Definition thru_link (c : case) (p : path) : bool :=
   existsb (fun h => kind_eqb (h_kind h) KSym && is_prefix_path (h_path h) p) (all_hdrs (c_pkgs c)).
 
+(* one package ships the path more than once *)
+(* ... or a directory above it (the writer expands a directory once per header
+   of its name: every record below is multiplied, C16-F7) *)
+Definition dup_path (c : case) (p : path) : bool :=
+  existsb (fun pk => existsb (fun q => Nat.ltb 1 (List.length (filter (fun h => path_eqb (h_path h) q) (p_files pk)))) (prefixes p)) (c_pkgs c).
+
 Fixpoint stanzas_line_up (pkgs : list pkg) (db : list dbpkg) : bool :=
   match pkgs, db with
   | [], [] => true
@@ -159,7 +165,10 @@ Definition check_model (c : case) : list string :=
       tag_if (negb (eclass_eqb ENoError (o_err c))) "mismatch:error-class" ++
       (if eclass_eqb ENoError (o_err c) then
          tag_if (negb (tree_matches (f_fs f) (o_tree c))) "mismatch:tree" ++
-         tag_if (negb (db_matches (c_pkgs c) (f_db f) (o_db c))) "mismatch:installed-db"
+         (* the writer of Model/InstallDb.v: one header per name (the last), once
+            per occurrence; equal to [f_db f] when no package ships a path twice
+            (Proofs/InstallDbProofs.v: db_of_nodup) *)
+         tag_if (negb (db_matches (c_pkgs c) (db_of f) (o_db c))) "mismatch:installed-db"
        else [])
   end.
 
@@ -168,7 +177,8 @@ Definition check_observed (c : case) : list string :=
   tag_if (negb (o_db_parsed c)) "viol:installed-db-unreadable" ++
   (if rule_envelope c then check_rules (c_backend c) (c_pkgs c) (o_err c) (o_tree c) else []) ++
   (if eclass_eqb (o_err c) ENoError && o_db_parsed c then
-     nodup string_dec (check_db_entries (c_backend c) (c_pre c) (o_tree c) (first_mode c) (aliased c) (thru_link c) (o_db c)) ++
+     nodup string_dec (check_db_entries (c_backend c) (c_pre c) (o_tree c) (first_mode c) (aliased c) (thru_link c) (dup_path c) (o_db c)) ++
+     check_stanza_dups (dup_path c) (o_db c) ++
      (if stanzas_line_up (c_pkgs c) (o_db c) then check_once_all (c_pre c) (aliased c) (thru_link c) (c_pkgs c) (o_db c) (o_tree c)
       else ["viol:db-stanza-per-package"])
    else []) ++
